@@ -230,6 +230,9 @@ def run(s):
                     docs.append(B.msg_doc('roReadyToAir', 5).replace('<messageID>5</messageID>',
                                                                      '<messageID>%s</messageID>' % pid))
                 s.hist['collections_with_shared_message_ids'] += 1
+            if c % 5 == 2:
+                docs = [d.replace('<mosID>MOS ID</mosID>', '<mosID>%s</mosID><ncsID>%s</ncsID>' % (
+                    rng.choice(['MOS ID', 'MOS B']), rng.choice(['NCS1', 'NCS2', 'ncs.backup'])), 1) for d in docs]
             if c % 7 == 3:
                 # the "roCreate" handed in is a running order that was already completed and written out
                 base = s.load(ro_txt)
